@@ -25,8 +25,20 @@
                                 connection exactly the first to take the mutex authenticates (EAuth); every
                                 other one finds authenticated = true, answers StatusAuthOK and notifies
                                 nobody                             : EAuthAgain
-     handleClient               ServeQUICConn returns only when the QUIC connection is closed;
-                                then LogOnlineState(id, false)   : EHandlerReturn
+     handleClient               ServeQUICConn returns only when the QUIC connection is closed AND
+                                every request handler it started has returned (http3 handleConn:
+                                wg.Wait()); then, if h.authenticated.Load(),
+                                LogOnlineState(id, false)        : EHandlerReturn
+
+   The auth handler in atomic steps (a connection can die at any point of them: the client gives up while
+   a slow Authenticator backend is still deciding; ServeHTTP never looks at the request context):
+     ServeHTTP enters            authMutex taken, authenticated = false read, Authenticate called
+                                                                   : EAuthBegin
+     Authenticate returns        ok: h.authID = id; h.authenticated.Store(true)   (the flag handleClient reads)
+                                 no: masquerade response, handler returns        : EAuthDecide
+     ... congestion set-up, response headers (nothing of it can fail or return) ...
+     tl.LogOnlineState(id,true)  unconditionally after the store; handler returns : EAnnounce
+   EAuth is the three steps in one (an authenticator that answers at once, nothing in between).
 
    A world is the stats server object plus the authenticated QUIC connections of the hysteria
    server; a connection's slot is its position in the list (connections are never removed, only
@@ -84,10 +96,18 @@ Definition site_action (st : site) (ok other_first : bool) : action :=
 (* ---------- connections and the world ---------- *)
 
 Record conn := mkConn {
-  c_id : id;          (* authID *)
+  c_id : id;          (* authID (what the Authenticator answers for this connection if it accepts) *)
   c_open : bool;      (* the QUIC connection has not been closed by either side *)
-  c_listed : bool     (* handleClient has not returned: the online notification is outstanding *)
+  c_flag : bool;      (* h.authenticated *)
+  c_busy : bool;      (* an auth handler of the connection is between EAuthBegin and its return *)
+  c_ann : bool;       (* LogOnlineState(authID, true) has been called for the connection *)
+  c_exited : bool     (* handleClient is past ServeQUICConn (it has reported offline, or nothing) *)
 }.
+
+(* the online notification is outstanding: announced, and handleClient has not reported offline yet *)
+Definition c_listed (c : conn) : bool := c_ann c && negb (c_exited c).
+(* a live authenticated connection as the census counts it: open and announced *)
+Definition c_live (c : conn) : bool := c_open c && c_ann c.
 
 Record world := mkWorld { logger : state; conns : list conn }.
 
@@ -101,8 +121,15 @@ Fixpoint upd (k : nat) (f : conn -> conn) (l : list conn) : list conn :=
   | c :: t, S k' => c :: upd k' f t
   end.
 
-Definition close_conn (c : conn) : conn := mkConn (c_id c) false (c_listed c).
-Definition unlist_conn (c : conn) : conn := mkConn (c_id c) (c_open c) false.
+Definition close_conn (c : conn) : conn := mkConn (c_id c) false (c_flag c) (c_busy c) (c_ann c) (c_exited c).
+(* handleClient continues after ServeQUICConn *)
+Definition unlist_conn (c : conn) : conn := mkConn (c_id c) (c_open c) (c_flag c) (c_busy c) (c_ann c) true.
+(* h.authID = id; h.authenticated.Store(true) *)
+Definition store_conn (c : conn) : conn := mkConn (c_id c) (c_open c) true (c_busy c) (c_ann c) (c_exited c).
+(* the handler returns without having authenticated anybody *)
+Definition reject_conn (c : conn) : conn := mkConn (c_id c) (c_open c) (c_flag c) false (c_ann c) (c_exited c).
+(* LogOnlineState(id, true) made; the handler returns *)
+Definition announce_conn (c : conn) : conn := mkConn (c_id c) (c_open c) (c_flag c) false true (c_exited c).
 
 Inductive wevent :=
 | EAuth (i : id)                                             (* new connection, slot = length conns *)
@@ -111,7 +138,11 @@ Inductive wevent :=
 | EReport (slot : nat) (st : site) (n : N) (other_first : bool)
 | EClientClose (slot : nat)                                  (* closed by the client / the network *)
 | EHandlerReturn (slot : nat)
-| EHttp (r : request).                                       (* the stats API *)
+| EHttp (r : request)                                        (* the stats API *)
+| EAuthBegin (i : id)                                        (* new connection, slot = length conns: its auth request is
+                                                                inside Authenticator.Authenticate, which will answer i *)
+| EAuthDecide (slot : nat) (ok : bool)                       (* Authenticate returns; ok: authID and the flag are stored *)
+| EAnnounce (slot : nat).                                    (* LogOnlineState(id, true); the auth handler returns *)
 
 Inductive wresp :=
 | WNone                              (* the event is not enabled in this world: nothing happens *)
@@ -122,7 +153,7 @@ Inductive wresp :=
 Definition wstep (secret : string) (w : world) (e : wevent) : world * wresp :=
   match e with
   | EAuth i =>
-      (mkWorld (fst (do_online (logger w) i true)) (conns w ++ [mkConn i true true]), WUnit)
+      (mkWorld (fst (do_online (logger w) i true)) (conns w ++ [mkConn i true true false true false]), WUnit)
   | EAuthAgain slot i =>
       (* "Already authenticated": no LogOnlineState, authID unchanged, no second connection *)
       match nth_error (conns w) slot with
@@ -152,13 +183,55 @@ Definition wstep (secret : string) (w : world) (e : wevent) : world * wresp :=
   | EHandlerReturn slot =>
       match nth_error (conns w) slot with
       | Some c =>
-          if negb (c_open c) && c_listed c then
-            (mkWorld (fst (do_online (logger w) (c_id c) false)) (upd slot unlist_conn (conns w)), WUnit)
+          (* ServeQUICConn returns: connection closed, no request handler in flight (wg.Wait) *)
+          if negb (c_open c) && negb (c_busy c) && negb (c_exited c) then
+            if c_flag c then
+              (mkWorld (fst (do_online (logger w) (c_id c) false)) (upd slot unlist_conn (conns w)), WUnit)
+            else (mkWorld (logger w) (upd slot unlist_conn (conns w)), WUnit)
           else (w, WNone)
       | None => (w, WNone)
       end
   | EHttp r =>
       let (s', h) := http_step secret (logger w) r in (mkWorld s' (conns w), WHttp (fst h) (snd h))
+  | EAuthBegin i =>
+      (mkWorld (logger w) (conns w ++ [mkConn i true false true false false]), WUnit)
+  | EAuthDecide slot ok =>
+      match nth_error (conns w) slot with
+      | Some c =>
+          if c_busy c && negb (c_flag c) then
+            (mkWorld (logger w) (upd slot (if ok then store_conn else reject_conn) (conns w)), WUnit)
+          else (w, WNone)
+      | None => (w, WNone)
+      end
+  | EAnnounce slot =>
+      match nth_error (conns w) slot with
+      | Some c =>
+          if c_busy c && c_flag c then
+            (mkWorld (fst (do_online (logger w) (c_id c) true)) (upd slot announce_conn (conns w)), WUnit)
+          else (w, WNone)
+      | None => (w, WNone)
+      end
+  end.
+
+(* the LogOnlineState calls an event makes, attributed to the connection: (slot, (id, online)) *)
+Definition note := (nat * (id * bool))%type.
+
+Definition wnote (w : world) (e : wevent) : list note :=
+  match e with
+  | EAuth i => [(List.length (conns w), (i, true))]
+  | EAnnounce slot =>
+      match nth_error (conns w) slot with
+      | Some c => if c_busy c && c_flag c then [(slot, (c_id c, true))] else []
+      | None => []
+      end
+  | EHandlerReturn slot =>
+      match nth_error (conns w) slot with
+      | Some c =>
+          if negb (c_open c) && negb (c_busy c) && negb (c_exited c) && c_flag c
+          then [(slot, (c_id c, false))] else []
+      | None => []
+      end
+  | _ => []
   end.
 
 (* Variant (NOT the code): authMutex wraps only the two stores, so the check and the success branch of
@@ -171,11 +244,39 @@ Definition auth_again_unlocked (w : world) (slot : nat) : world :=
   | None => w
   end.
 
+(* Variant (NOT the code): the handler looks at the request context after the store and returns
+   without announcing a client that has gone away ("if r.Context().Err() != nil { return }" placed
+   behind h.authenticated.Store(true)).  handleClient still reads the flag. *)
+Definition return_unannounced (w : world) (slot : nat) : world :=
+  match nth_error (conns w) slot with
+  | Some c => if c_busy c && c_flag c && negb (c_open c)
+              then mkWorld (logger w) (upd slot reject_conn (conns w)) else w
+  | None => w
+  end.
+
 Fixpoint wrun (secret : string) (w : world) (l : list wevent) : world :=
   match l with
   | [] => w
   | e :: t => wrun secret (fst (wstep secret w e)) t
   end.
+
+(* all LogOnlineState calls of a run, in order *)
+Fixpoint wtrace (secret : string) (w : world) (l : list wevent) : list note :=
+  match l with
+  | [] => []
+  | e :: t => wnote w e ++ wtrace secret (fst (wstep secret w e)) t
+  end.
+
+(* the calls that concern connection k *)
+Definition conn_notes (k : nat) (tr : list note) : list (id * bool) :=
+  map snd (filter (fun n => Nat.eqb (fst n) k) tr).
+
+(* the calls as operations of the stats object (model/C15_Stats.v) *)
+Definition note_ops (tr : list note) : list op := map (fun n => OOnline (fst (snd n)) (snd (snd n))) tr.
+
+(* the stats object after those calls *)
+Definition apply_notes (s : state) (tr : list note) : state :=
+  fold_left (fun s n => fst (do_online s (fst (snd n)) (snd (snd n)))) tr s.
 
 (* ---------- readings used by the theorems ---------- *)
 
@@ -188,15 +289,16 @@ Fixpoint nlisted (i : id) (l : list conn) : Z :=
   | c :: t => (b2z ((c_id c =? i)%N && c_listed c) + nlisted i t)%Z
   end.
 
+(* live authenticated (announced) connections of user i *)
 Fixpoint nopen (i : id) (l : list conn) : Z :=
   match l with
   | [] => 0%Z
-  | c :: t => (b2z ((c_id c =? i)%N && c_open c) + nopen i t)%Z
+  | c :: t => (b2z ((c_id c =? i)%N && c_live c) + nopen i t)%Z
   end.
 
 (* every handler of a closed connection has returned *)
 Definition quiescent (l : list conn) : Prop :=
-  forall c, In c l -> c_listed c = c_open c.
+  forall c, In c l -> c_listed c = c_live c.
 
 Definition is_open (slot : nat) (w : world) : bool :=
   match nth_error (conns w) slot with Some c => c_open c | None => false end.
